@@ -43,6 +43,9 @@
 (*        position among the non-"beh" kinds (an inner cost-constrained    *)
 (*        reward built from the 3-metric sub-list, fed the 4-column matrix)*)
 (*   "ColumnsInDocumentedOrder"    columns assumed to be stab,info,sens,beh*)
+(*   "CalculateScalesSensorInPlace"  calculate() rescales the sensor column *)
+(*        of the matrix it was handed; refuted by the action properties    *)
+(*        CalculateKeepsArgument / RecalculateIsStuttering                 *)
 (*   "DivisorFlooredAtOne"  normalisation divides by max(maximum, 1) without *)
 (*        the guard; refuted by NormalisedByKind only on metric columns    *)
 (*        whose maximum lies strictly between 0 and 1 - hence the          *)
@@ -159,11 +162,21 @@ RewardOf(x) ==
   CASE kind = "sum"      -> SumCols(x, NMetrics(kind))          \* np.sum over the metric axis
     [] kind = "cost"     -> Cost(x)
     [] kind = "combined" -> QAdd(Cost(x), x[ColOf("beh")])
+\* Deviation "CalculateScalesSensorInPlace": the term (1-d)*sens is formed with an in-place operator on a
+\* VIEW of the caller's matrix: the first result is right, the matrix handed in is not the same afterwards
+ScaledSens(nm) == [t \in T |-> [s \in S |-> [m \in 1..NMetrics(kind) |->
+                     IF order[m] = "sens" THEN QMul(QSub(One, delta), nm[t][s][m]) ELSE nm[t][s][m]]]]
 Calculate == /\ pc = "normalized"
              /\ reward' = [t \in T |-> [s \in S |-> RewardOf(norm[t][s])]]
-             /\ pc' = "rewarded" /\ UNCHANGED <<kind, delta, order, scale, kcube, cube, norm>>
+             /\ norm' = IF Deviation = "CalculateScalesSensorInPlace" /\ kind # "sum" THEN ScaledSens(norm) ELSE norm
+             /\ pc' = "rewarded" /\ UNCHANGED <<kind, delta, order, scale, kcube, cube>>
+\* the engine (or anybody) may evaluate the reward of the same matrix again: a stuttering step iff
+\* calculate() is a function of the matrix alone and leaves it alone
+Recalculate == /\ pc = "rewarded"
+               /\ reward' = [t \in T |-> [s \in S |-> RewardOf(norm[t][s])]]
+               /\ UNCHANGED <<pc, kind, delta, order, scale, kcube, cube, norm>>
 
-Next == PoseKind \/ PoseOrder \/ PoseScale \/ PoseLead \/ PoseCube \/ Normalize \/ Calculate
+Next == PoseKind \/ PoseOrder \/ PoseScale \/ PoseLead \/ PoseCube \/ Normalize \/ Calculate \/ Recalculate
 Spec == Init /\ [][Next]_vars
 
 \* ---- C07, reward clause, stated on metric KINDS (independent of the listing order) ----
@@ -184,6 +197,11 @@ RewardIsDocumentedCombination ==
 NormalisedByKind ==
   pc = "normalized" =>
      \A t \in T, s \in S, c \in 1..NMetrics(kind) : norm[t][s][c] = KNorm(t, s, order[c])
+\* Reward.calculate does not modify its argument, and evaluating it again gives the same reward
+\* (action properties; the driver checks both on the real code: the matrix handed in is compared
+\* with a copy afterwards, calculate() is called twice on the same array)
+CalculateKeepsArgument == [][pc = "normalized" => norm' = norm]_vars
+RecalculateIsStuttering == [][pc = "rewarded" => reward' = reward]_vars
 \* every metric with a positive maximum has maximum exactly one after normalisation, the others are unchanged
 PositiveMaxBecomesOne ==
   pc = "normalized" =>
